@@ -16,10 +16,11 @@ func Run(cfg hx.Config) error {
 		return err
 	}
 	rnd := hx.NewRand(cfg.Seed)
-	r.Rule = "(1) pure layer: generated per-layer artifacts (0-12 layers; install/upgrade/remove evolutions, ids shared across databases, duplicate digests, repositories, whiteout files) through the real coalescers, MergeSR, whiteout.Resolver, IndexRecords; fileIsDeleted on arbitrary and on clean paths. (2) end to end: layer histories generated from install/upgrade/remove operations on dpkg and apk databases and python/nodejs/ruby/java package files (whiteouts, opaque directories, re-creation, empty, duplicate and unrelated layers) as tars through the real controller and scanners over an in-memory store; compared with the same scanners on the flattened image; every history also abstracted (content ids, scan table) for the Lean model (Tame?, indexModel, scanImage). Non-trivial = more than one layer / ecosystem, fileIsDeleted true, final image with packages."
-	r.Notes["ecosystems_end_to_end"] = "dpkg, alpine(apk), python, java, ruby, nodejs, whiteout; rpm/rhel/rhcc (binary databases, network) and gobin (Go executables) are exercised in the pure layer only"
+	r.Rule = "(1) pure layer: generated per-layer artifacts (0-12 layers; install/upgrade/remove evolutions, ids shared across databases and ecosystems, duplicate digests, repositories, whiteout files) through the real coalescers, MergeSR (also with the reports in permuted order), whiteout.Resolver, IndexRecords; fileIsDeleted on arbitrary and on clean paths; direct oracles of the exactness theorems. (2) end to end: layer histories generated from install/upgrade/remove operations on dpkg, apk and rpm (ndb) databases, RHEL release files and content manifests, python/nodejs/ruby/java package files and Go executables (whiteouts at any depth, opaque directories, re-creation, empty, duplicate and unrelated layers, look-alike whiteout names, dot-directories) as tars through the real controller and libindex's scanners over an in-memory store; compared with the same scanners on the flattened image (packages, distributions); every history also abstracted (content ids, scan table, distribution table) for the Lean model (Tame?, indexModel, scanImage, imageDist). Non-trivial = more than one layer / ecosystem, fileIsDeleted true, final image with packages."
+	r.Notes["ecosystems_end_to_end"] = "dpkg, alpine(apk), rhel and rpm (ndb databases; rhel repository scanner with a local mapping file), python, java, ruby, nodejs, gobin (synthetic ELF with .go.buildinfo), whiteout; rhcc is not run"
 	r.Notes["store"] = "private in-memory indexer.Store (go/internal/c01/store.go) with the unique keys of migrations/indexer/01-init.sql; the SQL engine is modelled, not verified"
-	r.Notes["strictness"] = "a history inside the hypothesis Tame (evaluated by the Go transcription of tameB, itself compared with the Lean evaluation on every e2e line) may show no difference at all; outside it a difference is classified only when it has exactly the shape of a recorded finding"
+	r.Notes["strictness"] = "a history inside the hypothesis Tame (evaluated by the Go transcription of tameB, itself compared with the Lean evaluation on every e2e line) may show no difference at all; outside it a difference is classified only when it has exactly the shape of a recorded finding; distributions are compared when DistStable holds"
+	r.Notes["goroutine_order"] = "protocol lines whose real answer depends on which coalescer goroutine finishes last (one package id with different Package values in two ecosystems) are skipped and counted; MergeSR is compared in permuted orders in the pure layer"
 	defer removeMappingFile()
 	runCorpus(r, cfg.Corpus)
 	runPure(r, cfg, rnd.Fork())
